@@ -2,12 +2,31 @@ package c06
 
 import (
 	"encoding/json"
+	"sync"
 
 	"verifharness/core"
 )
 
-func runtimeBinding(r *core.Run) {}
+// runtimeBinding: the TypeScript-only runtime constructs (part 2)
+func runtimeBinding(r *core.Run) {
+	var wg sync.WaitGroup
+	wg.Add(1)
+	go func() { defer wg.Done(); enumBinding(r) }()
+	wg.Wait()
+}
 
 func replayRuntime(r *core.Run, part string, detail json.RawMessage) {
-	r.Infra("unknown replay part %q", part)
+	switch part {
+	case "enum":
+		var d struct {
+			Case *enumCase `json:"case"`
+		}
+		if err := json.Unmarshal(detail, &d); err != nil || d.Case == nil {
+			r.Infra("undecodable enum replay: %v", err)
+			return
+		}
+		evalEnums(r, []*enumCase{d.Case}, true)
+	default:
+		r.Infra("unknown replay part %q", part)
+	}
 }
